@@ -1045,57 +1045,148 @@ Proof.
     + rewrite (reads_pkr z _ (len ls) c Hr) by (rewrite peekz_app_r0; apply peekz_cons_0). cbn [rbind]. rewrite Hc. reflexivity.
 Qed.
 
-(* the bytes between the tag name and the end tag: no double quote, no NUL, no "</" *)
-Definition xml_inner (inner : list Z) : Prop :=
-  Forall (fun c => c <> 34 /\ c <> 0) inner /\ forall k, peekz inner k = Some 60 -> peekz inner (k + 1) <> Some 47.
+(* the maximal run of letters at the head *)
+Fixpoint letter_run (s : list Z) : list Z :=
+  match s with
+  | c :: t => if is_letter c then c :: letter_run t else []
+  | [] => []
+  end.
 
-Lemma xml_loop_run raw z inner ename erest :
-  reads z (inner ++ 60 :: 47 :: ename ++ erest) -> xml_inner inner ->
-  Forall (fun c => is_letter c = true) ename -> to_hash (map lower ename) = Ok raw ->
-  (exists c r, erest = c :: r /\ is_letter c = false) -> lstart z <= lpos z ->
-  loop (fuel_of z) (xml_body raw) (z, false) = Ok (inl (mv z (len inner + 2 + len ename))).
+Lemma letter_run_split s : exists r, s = letter_run s ++ r /\ Forall (fun c => is_letter c = true) (letter_run s) /\
+  (r = [] \/ exists c r', r = c :: r' /\ is_letter c = false).
 Proof.
-  intros Hr (Hin & Hnls) Hlet Hhash (ce & re & Ee & Hce) Hst.
-  pose proof (len_nonneg inner). pose proof (len_nonneg ename). pose proof (len_nonneg erest).
-  assert (Hlens : len (inner ++ 60 :: 47 :: ename ++ erest) = len inner + 2 + len ename + len erest) by (rewrite len_app, !len_cons, len_app; lia).
-  apply (loop_scan2 _ z false (len inner)); [lia| | |eapply fuel_of_enough; [exact Hr|lia]].
-  - intros i Hi. destruct (peekz_in inner i Hi) as (c & Hc & Hci). rewrite Forall_forall in Hin. destruct (Hin c Hci) as [H34 Hnz].
-    unfold xml_body. rewrite pkr_mv0, (reads_pkr z _ i c Hr (peekz_app_l' _ _ _ _ Hc)). cbn [rbind].
-    replace (c =? 34) with false by (symmetry; apply Z.eqb_neq; exact H34).
+  induction s as [|c t (r & E & Hl & Hr)]; [exists []; split; [reflexivity|split; [constructor|left; reflexivity]]|].
+  cbn [letter_run]. destruct (is_letter c) eqn:El.
+  - exists r. split; [cbn [app]; f_equal; exact E|]. split; [constructor; assumption|exact Hr].
+  - exists (c :: t). split; [reflexivity|]. split; [constructor|right; eauto].
+Qed.
+
+(* The bytes between the name of an svg / math / xml start tag and the end tag of the element, read as shiftXML reads
+   them.  State: inside a tag (it; we start inside the start tag), inside an attribute value quoted by q (0 = none).
+   Quotes count only inside tags; '>' leaves a tag; in character data a '<' enters a tag unless "<!" or "<?" follows
+   (comments, CDATA, processing instructions are character data) and "</" + letters must not name the element itself
+   (nested end tags are character data); no NUL; at the end we are in character data. *)
+Fixpoint xml_wf (raw : Z) (it : bool) (q : Z) (s : list Z) : bool :=
+  match s with
+  | [] => negb it && (q =? 0)
+  | c :: t =>
+      if c =? 0 then false
+      else if negb (q =? 0) then xml_wf raw it (if c =? q then 0 else q) t
+      else if it then xml_wf raw (negb (c =? 62)) (if (c =? 34) || (c =? 39) then c else 0) t
+      else if c =? 60 then
+        match t with
+        | [] => false
+        | c1 :: t1 =>
+            if c1 =? 47
+            then match to_hash (map lower (letter_run t1)) with Ok h => negb (h =? raw) | _ => false end && xml_wf raw false 0 t
+            else xml_wf raw (negb (c1 =? 33) && negb (c1 =? 63)) 0 t
+        end
+      else xml_wf raw false 0 t
+  end.
+
+Lemma xml_wf_data_skip raw u r : Forall (fun c => c <> 60 /\ c <> 0) u -> xml_wf raw false 0 (u ++ r) = xml_wf raw false 0 r.
+Proof.
+  intros Hu. induction Hu as [|c u [H60 H0] _ IH]; [reflexivity|]. cbn [app xml_wf].
+  replace (c =? 0) with false by (symmetry; apply Z.eqb_neq; exact H0). cbn [Z.eqb negb].
+  replace (c =? 60) with false by (symmetry; apply Z.eqb_neq; exact H60). exact IH.
+Qed.
+
+Lemma letter_data c : is_letter c = true -> c <> 60 /\ c <> 0.
+Proof. intros H. split; intros ->; discriminate. Qed.
+
+(* at "</" + letters in character data: the hash of the letters decides *)
+Lemma xml_body_endtag raw z ls rest : reads z (60 :: 47 :: ls ++ rest) -> Forall (fun c => is_letter c = true) ls ->
+  (rest = [] \/ exists c r, rest = c :: r /\ is_letter c = false) ->
+  xml_body raw (z, false, 0) =
+  (h <-- to_hash (map lower ls) ;;
+   if h =? raw then Ok (Brk (inl (mv z (2 + len ls)))) else Ok (Cont (mv z (2 + len ls), false, 0))).
+Proof.
+  intros Hr Hlet Hrest. pose proof (len_nonneg ls). pose proof (len_nonneg rest).
+  assert (Hst : lstart z <= lpos z) by (destruct Hr as [(_ & ? & _) _]; lia).
+  unfold xml_body. rewrite (reads_pkr z _ 0 60 Hr (peekz_cons_0 _ _)). cbn [rbind Z.eqb negb andb].
+  rewrite (reads_pkr z _ 1 47 Hr (peekz_1 _ _ _)). cbn [rbind Z.eqb negb].
+  pose proof (reads_mv _ _ 2 Hr ltac:(rewrite !len_cons; pose proof (len_nonneg (ls ++ rest)); lia)) as Hr2.
+  change (skipz 2 (60 :: 47 :: ls ++ rest)) with (ls ++ rest) in Hr2.
+  rewrite (letters_loop_reads _ ls rest Hr2 Hlet Hrest). cbn [rbind].
+  unfold hash_lexeme_from. destruct Hr2 as [Hw2 Hrem2].
+  destruct (rem_mv _ (len ls) Hw2) as [_ Hw3]; [rewrite Hrem2, len_app; lia|].
+  rewrite lexeme_from_spec by (exact Hw3 || (unfold mark; cbn [mv lpos lstart]; lia)). cbn [rbind].
+  assert (Hbytes : view_bytes (lbuf (mv (mv z 2) (len ls)))
+                     (mkSl (lstart (mv (mv z 2) (len ls)) + (mark z + 2))
+                           (lpos (mv (mv z 2) (len ls)) - lstart (mv (mv z 2) (len ls)) - (mark z + 2))) = ls).
+  { unfold view_bytes, mark. cbn [so sn mv lbuf lpos lstart].
+    replace (lstart z + (lpos z - lstart z + 2)) with (lpos z + 2) by lia.
+    replace (lpos z + 2 + (lpos z + 2 + len ls - lstart z - (lpos z - lstart z + 2))) with (lpos z + (2 + len ls)) by lia.
+    rewrite (reads_slice z _ 2 (2 + len ls) Hr) by (rewrite ?len_cons, ?len_app; lia).
+    exact (slice_mid' [60; 47] ls rest). }
+  rewrite Hbytes. rewrite mv_mv. reflexivity.
+Qed.
+
+Lemma xml_loop_run raw ename erest : Forall (fun c => is_letter c = true) ename -> to_hash (map lower ename) = Ok raw ->
+  (exists c r, erest = c :: r /\ is_letter c = false) ->
+  forall n inner, (length inner <= n)%nat -> forall z it q fuel,
+  reads z (inner ++ 60 :: 47 :: ename ++ erest) -> xml_wf raw it q inner = true -> (length inner < fuel)%nat ->
+  loop fuel (xml_body raw) (z, it, q) = Ok (inl (mv z (len inner + 2 + len ename))).
+Proof.
+  intros Hlet Hhash (ce & re & Ee & Hce). induction n as [|n IH]; intros inner Hn z it q fuel Hr Hwf Hf.
+  all: destruct fuel as [|k]; [lia|]; cbn [loop].
+  all: destruct inner as [|c t].
+  1,3: (* at the end tag *)
+    cbn [xml_wf] in Hwf; apply andb_true_iff in Hwf; destruct Hwf as [Hit Hq]; apply negb_true_iff in Hit; apply Z.eqb_eq in Hq; subst it q;
+    cbn [app] in Hr; rewrite (xml_body_endtag raw z ename erest Hr Hlet) by (right; rewrite Ee; eauto);
+    rewrite Hhash; cbn [rbind]; rewrite Z.eqb_refl; cbn [rbind]; change (len (@nil Z)) with 0; reflexivity.
+  - cbn [length] in Hn. lia.
+  - cbn [length] in Hn, Hf. cbn [app] in Hr.
+    pose proof (len_nonneg t). pose proof (len_nonneg ename). pose proof (len_nonneg erest).
+    assert (Hlt : 1 <= len (c :: t ++ 60 :: 47 :: ename ++ erest)) by (rewrite len_cons; pose proof (len_nonneg (t ++ 60 :: 47 :: ename ++ erest)); lia).
+    pose proof (reads_mv _ _ 1 Hr ltac:(lia)) as Hr1.
+    change (skipz 1 (c :: t ++ 60 :: 47 :: ename ++ erest)) with (t ++ 60 :: 47 :: ename ++ erest) in Hr1.
+    (* a step of one byte *)
+    assert (Hone : forall it' q', xml_body raw (z, it, q) = Ok (Cont (mv z 1, it', q')) -> xml_wf raw it' q' t = true ->
+              rbind (xml_body raw (z, it, q)) (fun x => match x with Cont s' => loop k (xml_body raw) s' | Brk r => Ok r end) =
+              Ok (inl (mv z (len (c :: t) + 2 + len ename)))).
+    { intros it' q' Hb Hw'. rewrite Hb. cbn [rbind]. rewrite (IH t ltac:(lia) (mv z 1) it' q' k Hr1 Hw' ltac:(lia)).
+      rewrite mv_mv, len_cons. do 3 f_equal. lia. }
+    cbn [xml_wf] in Hwf.
+    destruct (c =? 0) eqn:E0; [discriminate|].
+    assert (Hpk : pkr z 0 = Ok c) by (apply (reads_pkr z _ 0 c Hr), peekz_cons_0).
+    destruct (negb (q =? 0)) eqn:Eq.
+    { apply (Hone it (if c =? q then 0 else q)); [|exact Hwf]. unfold xml_body. rewrite Hpk. cbn [rbind]. rewrite Eq, E0. reflexivity. }
+    apply negb_false_iff, Z.eqb_eq in Eq. subst q.
+    destruct it.
+    { apply (Hone (negb (c =? 62)) (if (c =? 34) || (c =? 39) then c else 0)); [|exact Hwf].
+      unfold xml_body. rewrite Hpk. cbn [rbind Z.eqb negb andb]. rewrite E0. cbn [negb]. destruct (c =? 62); reflexivity. }
     destruct (c =? 60) eqn:E60.
-    + apply Z.eqb_eq in E60. subst c. cbn [andb negb].
-      (* the next byte is not '/' *)
-      assert (Hnext : exists c1, pkr (mv z i) 1 = Ok c1 /\ c1 <> 47).
-      { destruct (Z.eq_dec (i + 1) (len inner)) as [E|E].
-        - exists 60. split; [|discriminate]. rewrite pkr_mv. apply (reads_pkr z _ (i + 1) 60 Hr). rewrite E, peekz_app_r0. apply peekz_cons_0.
-        - destruct (peekz_in inner (i + 1) ltac:(lia)) as (c1 & Hc1 & _). exists c1. split.
-          + rewrite pkr_mv. apply (reads_pkr z _ (i + 1) c1 Hr), peekz_app_l', Hc1.
-          + intros ->. exact (Hnls i Hc Hc1). }
-      destruct Hnext as (c1 & Hc1 & Hne). rewrite Hc1. cbn [rbind].
-      replace (c1 =? 47) with false by (symmetry; apply Z.eqb_neq; exact Hne). rewrite mv_mv. reflexivity.
-    + cbn [andb rbind]. replace (c =? 0) with false by (symmetry; apply Z.eqb_neq; exact Hnz). rewrite mv_mv. reflexivity.
-  - unfold xml_body. rewrite pkr_mv0, (reads_pkr z _ (len inner) 60 Hr) by (rewrite peekz_app_r0; apply peekz_cons_0). cbn [rbind]. change (60 =? 34) with false. change (60 =? 60) with true. cbn [andb negb].
-    rewrite pkr_mv, (reads_pkr z _ (len inner + 1) 47 Hr) by (rewrite peekz_app_rk by lia; apply peekz_1). cbn [rbind]. change (47 =? 47) with true.
-    pose proof (reads_mv _ _ (len inner + 2) Hr ltac:(lia)) as Hr2.
-    assert (Hsk : skipz (len inner + 2) (inner ++ 60 :: 47 :: ename ++ erest) = ename ++ erest).
-    { replace (inner ++ 60 :: 47 :: ename ++ erest) with ((inner ++ [60; 47]) ++ ename ++ erest) by (rewrite <- app_assoc; reflexivity).
-      replace (len inner + 2) with (len (inner ++ [60; 47])) by (rewrite len_app; reflexivity). apply skipz_app_len. }
-    rewrite Hsk in Hr2. rewrite mv_mv.
-    rewrite (letters_loop_reads _ ename erest Hr2 Hlet) by (right; rewrite Ee; eauto). cbn [rbind].
-    (* the hash of the letters *)
-    unfold hash_lexeme_from. destruct Hr2 as [Hw2 Hrem2].
-    destruct (rem_mv _ (len ename) Hw2) as [_ Hw3]; [rewrite Hrem2, len_app; lia|].
-    rewrite lexeme_from_spec by (exact Hw3 || (unfold mark; cbn [mv lpos lstart]; lia)). cbn [rbind].
-    assert (Hbytes : view_bytes (lbuf (mv (mv z (len inner + 2)) (len ename)))
-                       (mkSl (lstart (mv (mv z (len inner + 2)) (len ename)) + (mark (mv z (len inner)) + 2))
-                             (lpos (mv (mv z (len inner + 2)) (len ename)) - lstart (mv (mv z (len inner + 2)) (len ename)) - (mark (mv z (len inner)) + 2))) = ename).
-    { unfold view_bytes, mark. cbn [so sn mv lbuf lpos lstart].
-      replace (lstart z + (lpos z + len inner - lstart z + 2)) with (lpos z + (len inner + 2)) by lia.
-      replace (lpos z + (len inner + 2) + (lpos z + (len inner + 2) + len ename - lstart z - (lpos z + len inner - lstart z + 2))) with (lpos z + (len inner + 2 + len ename)) by lia.
-      rewrite (reads_slice z _ (len inner + 2) (len inner + 2 + len ename) Hr) by lia.
-      replace (inner ++ 60 :: 47 :: ename ++ erest) with ((inner ++ [60; 47]) ++ ename ++ erest) by (rewrite <- app_assoc; reflexivity).
-      replace (len inner + 2) with (len (inner ++ [60; 47])) by (rewrite len_app; reflexivity). apply slice_mid'. }
-    rewrite Hbytes, Hhash. cbn [rbind]. rewrite Z.eqb_refl. rewrite mv_mv. first [reflexivity | do 3 f_equal; lia].
+    2:{ apply (Hone false 0); [|exact Hwf]. unfold xml_body. rewrite Hpk. cbn [rbind Z.eqb negb andb]. rewrite E60, E0. reflexivity. }
+    apply Z.eqb_eq in E60. subst c.
+    destruct t as [|c1 t1]; [discriminate|].
+    destruct (c1 =? 47) eqn:E47.
+    2:{ apply (Hone (negb (c1 =? 33) && negb (c1 =? 63)) 0); [|exact Hwf]. unfold xml_body. rewrite Hpk. cbn [rbind Z.eqb negb andb].
+        rewrite (reads_pkr z _ 1 c1 Hr (peekz_1 _ _ _)). cbn [rbind]. rewrite E47. reflexivity. }
+    (* a nested end tag: jump over its letters *)
+    apply Z.eqb_eq in E47. subst c1. apply andb_true_iff in Hwf. destruct Hwf as [Hh Hwf].
+    destruct (letter_run_split t1) as (r1 & Et1 & Hl1 & Hr1').
+    set (ls := letter_run t1) in *.
+    destruct (to_hash (map lower ls)) as [h| |] eqn:Eh; try discriminate.
+    assert (Hr' : reads z (60 :: 47 :: ls ++ r1 ++ 60 :: 47 :: ename ++ erest)).
+    { cbn [app] in Hr. rewrite Et1, <- app_assoc in Hr. exact Hr. }
+    rewrite (xml_body_endtag raw z ls _ Hr' Hl1).
+    2:{ right. destruct Hr1' as [->|(c' & r' & -> & Hc')]; [exists 60, (47 :: ename ++ erest); split; reflexivity|exists c', (r' ++ 60 :: 47 :: ename ++ erest); split; [reflexivity|exact Hc']]. }
+    rewrite Eh. cbn [rbind]. apply negb_true_iff in Hh. rewrite Hh. cbn [rbind].
+    pose proof (len_nonneg ls). pose proof (len_nonneg r1).
+    pose proof (reads_mv _ _ (2 + len ls) Hr' ltac:(rewrite !len_cons, len_app; pose proof (len_nonneg (r1 ++ 60 :: 47 :: ename ++ erest)); lia)) as Hr2.
+    assert (Hsk : skipz (2 + len ls) (60 :: 47 :: ls ++ r1 ++ 60 :: 47 :: ename ++ erest) = r1 ++ 60 :: 47 :: ename ++ erest).
+    { change (60 :: 47 :: ls ++ r1 ++ 60 :: 47 :: ename ++ erest) with ([60; 47] ++ ls ++ r1 ++ 60 :: 47 :: ename ++ erest).
+      rewrite app_assoc. replace (2 + len ls) with (len ([60; 47] ++ ls)) by (rewrite len_app; reflexivity). apply skipz_app_len. }
+    rewrite Hsk in Hr2.
+    assert (Hw1 : xml_wf raw false 0 r1 = true).
+    { rewrite <- Hwf. rewrite Et1. change (47 :: ls ++ r1) with ((47 :: ls) ++ r1). symmetry. apply xml_wf_data_skip.
+      constructor; [split; discriminate|]. eapply Forall_impl; [|exact Hl1]. intros a. apply letter_data. }
+    assert (Hlen1 : (length t1 = length ls + length r1)%nat) by (rewrite Et1 at 1; apply app_length).
+    cbn [length] in Hn, Hf.
+    rewrite (IH r1 ltac:(lia) (mv z (2 + len ls)) false 0 k Hr2 Hw1 ltac:(lia)).
+    assert (Hlt1 : len t1 = len ls + len r1) by (unfold len; lia).
+    rewrite mv_mv. do 3 f_equal. rewrite !len_cons. lia.
 Qed.
 
 Lemma xml_close_loop_run z ews rest : reads z (ews ++ 62 :: rest) -> Forall (fun c => c <> 62 /\ c <> 0) ews ->
@@ -1137,7 +1228,7 @@ Lemma next_foreign d l pre name inner ename ews rest h :
   lerr l = false ->
   (exists c nm, name = c :: nm /\ is_letter c = true) -> Forall namechar name ->
   to_hash (map lower name) = Ok h -> to_hash (map lower ename) = Ok h -> is_xml_hash h = true ->
-  (exists c r, inner = c :: r /\ (is_ws c = true \/ c = 62)) -> xml_inner inner ->
+  (exists c r, inner = c :: r /\ (is_ws c = true \/ c = 62)) -> xml_wf h true 0 inner = true ->
   Forall (fun c => is_letter c = true) ename -> Forall (fun c => is_ws c = true) ews ->
   let n := 1 + len name + len inner + 2 + len ename + len ews + 1 in
   exists l', next no_tmpl l = Ok (foreign_ty h, Some (mkSl (len pre) n), l') /\
@@ -1186,7 +1277,8 @@ Proof.
     inversion Hews as [|? ? Hw _]; subst. unfold is_ws in Hw. unfold is_letter.
     repeat (apply orb_true_iff in Hw; destruct Hw as [Hw|Hw]); apply Z.eqb_eq in Hw; subst w; reflexivity. }
   unfold shift_xml.
-  rewrite (xml_loop_run h z2 inner ename (ews ++ 62 :: rest) Hr3 Hinner Helet Heh Herest) by (unfold z2, lx_lower; cbn [mv lstart lpos]; lia).
+  rewrite (xml_loop_run h ename (ews ++ 62 :: rest) Helet Heh Herest (length inner) inner (le_n _) z2 true 0 (fuel_of z2) Hr3 Hinner).
+  2:{ pose proof (fuel_of_enough z2 tl (len inner) Hr3 ltac:(lia)) as Hfe. unfold len in Hfe. rewrite Nat2Z.id in Hfe. exact Hfe. }
   cbn [rbind].
   pose proof (reads_mv _ _ (len inner + 2 + len ename) Hr3 ltac:(lia)) as Hr4.
   assert (Hsk : skipz (len inner + 2 + len ename) tl = ews ++ 62 :: rest).
